@@ -204,6 +204,50 @@ fn cross_module_case(lay: Layout, through_constructor: bool) -> Result<(Vec<crat
     Ok((stack, want))
 }
 
+// the fault in different statement / expression contexts: the innermost frame must point into the offending token
+fn context_programs(lay: Layout) -> Vec<(&'static str, String, (u32, u32, u32))> {
+    let ctx: Vec<(&'static str, &'static str, &'static str)> = vec![
+        ("if_condition", "if (", ") { k = 1; }"),
+        ("while_condition", "while (", ") { k = 1; }"),
+        ("for_test_clause", "for (let i = 0; i < ", "; i++) { k = 1; }"),
+        ("for_update_clause", "for (let i = 0; i < 2; i += ", ") { k = 2; }"),
+        ("switch_case_body", "switch (k) { case 0: k = ", "; break; case 1: k = 5; break; }"),
+        ("array_element", "let arr = [1, 2, ", ", 4];"),
+        ("object_literal_value", "let obj = { a: 1, b: ", ", c: 3 };"),
+        ("call_argument", "k = Math.max(1, ", ", 3);"),
+        ("template_substitution", "let t = `x${", "}y`;"),
+        ("conditional_branch", "k = k === 0 ? ", " : 1;"),
+        ("binary_right_operand", "k = 1 + 2 * ", ";"),
+        ("assignment_rhs", "k = ", ";"),
+        ("var_initialiser", "let fresh = ", ";"),
+        ("return_value", "return ", ";"),
+        ("member_object", "k = ", ".length;"),
+        ("compound_assignment", "k += ", ";"),
+        ("logical_right_operand", "k = k === 0 && ", ";"),
+        ("spread_element", "let arr2 = [...[1], ", "];"),
+    ];
+    let mut out = Vec::new();
+    for (name, pre, post) in ctx {
+        let mut s = Src::new();
+        s.put(lay.pad);
+        s.put(&format!("function host(a: number) {{{}", lay.nl));
+        s.put(lay.indent);
+        s.put(&format!("let k = 0;{}", lay.nl));
+        s.put(lay.pad);
+        s.put(lay.indent);
+        s.put(lay.inline_pad);
+        s.put(pre);
+        let m = s.mark("undefinedVariable");
+        s.put(post);
+        s.put(lay.nl);
+        s.put(lay.indent);
+        s.put(&format!("return k;{}}}{}", lay.nl, lay.nl));
+        s.put(&format!("host(1);{}", lay.nl));
+        out.push((name, s.text, m));
+    }
+    out
+}
+
 #[test]
 fn verif_side_c20() {
     let extra: usize = std::env::var("VERIF_ITERS").ok().and_then(|s| s.parse().ok()).unwrap_or(0);
@@ -278,6 +322,89 @@ fn verif_side_c20() {
                 }
                 other => fail("syntax_error_position_is_offending_token", format!("{} got {:?} want SyntaxError", id, format!("{:?}", other).chars().take(120).collect::<String>())),
             }
+        }
+    }
+    for (li, lay) in LAYOUTS.iter().enumerate() {
+        for (name, src, m) in context_programs(*lay) {
+            cases += 1;
+            let id = format!("context={} layout={}", name, li);
+            match run(&src) {
+                Err(JsError::RuntimeError { stack, .. }) => match stack.first() {
+                    Some(f) => {
+                        if f.line != m.0 || f.column < m.1 || f.column > m.2 || f.function_name.as_deref() != Some("host") {
+                            fail("fault_position_in_every_statement_context", format!("{} innermost frame {:?}@{}:{} want host@{}:{}..={}", id, f.function_name, f.line, f.column, m.0, m.1, m.2));
+                        }
+                    }
+                    None => fail("fault_position_in_every_statement_context", format!("{} empty trace", id)),
+                },
+                other => fail("fault_position_in_every_statement_context", format!("{} got {:?}", id, format!("{:?}", other).chars().take(140).collect::<String>())),
+            }
+        }
+    }
+    // call shapes: (program, expected frames innermost first as (name, line)); names ("*" = any) and lines must match
+    // exactly and every frame must name /main.ts.  The 2nd..5th were genuine defects of the pinned tree (known_findings.txt,
+    // fixed: 5b859d5 8cff870 76a2deb); a deviation is classified by a wording-independent signature.
+    let shapes: Vec<(&str, &str, &str, Vec<(Option<&str>, u32)>)> = vec![
+        ("class_method_chain", "ok",
+         "class K {\n  v = 1;\n  m(a: number) {\n    return undefinedVariable + a;\n  }\n  static s() { return new K().m(1); }\n}\nfunction viaStatic() { return K.s(); }\nviaStatic();\n",
+         vec![(Some("m"), 4), (Some("s"), 6), (Some("viaStatic"), 8), (None, 9)]),
+        ("object_literal_method", "ok",
+         "const o = { go(a: number) { return undefinedVariable + a; } };\nfunction caller() { return o.go(1); }\ncaller();\n",
+         vec![(Some("go"), 1), (Some("caller"), 2), (None, 3)]),
+        ("object_literal_function_value", "ok",
+         "const o = {\n  'k': function (a: number) { return undefinedVariable + a; },\n  ar: (a: number) => o.k(a),\n};\nfunction caller() { return o.ar(1); }\ncaller();\n",
+         vec![(Some("k"), 2), (Some("ar"), 3), (Some("caller"), 5), (None, 6)]),
+        ("arrow_function_frame", "ok",
+         "const arrowFn = (a: number) => undefinedVariable + a;\nfunction callsArrow() { return arrowFn(1); }\ncallsArrow();\n",
+         vec![(Some("arrowFn"), 1), (Some("callsArrow"), 2), (None, 3)]),
+        ("constructor_frames", "ok",
+         "class A {\n  v: number;\n  constructor(x: number) {\n    this.v = undefinedVariable + x;\n  }\n}\nclass B extends A { w = 1; }\nfunction make() { return new B(1); }\nmake();\n",
+         vec![(Some("A"), 4), (Some("B"), 7), (Some("make"), 8), (None, 9)]),
+        ("field_initialiser", "ok",
+         "class B { w = 1; }\nclass C extends B {\n  z = undefinedVariable;\n}\nfunction make() { return new C(); }\nmake();\n",
+         vec![(Some("C"), 3), (Some("make"), 5), (None, 6)]),
+        ("native_callback", "ok",
+         "function cb(x: number) { return undefinedVariable + x; }\nfunction useMap() { return [1, 2].map(cb); }\nuseMap();\n",
+         vec![(Some("cb"), 1), (Some("useMap"), 2), (None, 3)]),
+        ("nested_native_callbacks", "ok",
+         "function cb(x: number) { return undefinedVariable + x; }\nfunction inner() { return [1, 2].map(cb); }\nfunction mid(y: number) {\n  return [y].forEach(function each() { inner(); });\n}\nmid(1);\n",
+         vec![(Some("cb"), 1), (Some("inner"), 2), (Some("each"), 4), (Some("mid"), 4), (None, 6)]),
+        ("generator_body", "ok",
+         "function* gen() { yield undefinedVariable; }\nfunction drive() { const g = gen(); return g.next(); }\ndrive();\n",
+         vec![(Some("gen"), 1), (Some("drive"), 2), (None, 3)]),
+        ("generator_calls_function", "ok",
+         "function leaf() { return undefinedVariable; }\nfunction* gen() {\n  yield 1;\n  yield leaf();\n}\nfunction drive() {\n  const g = gen();\n  g.next();\n  return g.next();\n}\ndrive();\n",
+         vec![(Some("leaf"), 1), (Some("gen"), 4), (Some("drive"), 9), (None, 11)]),
+        ("getter_body", "ok",
+         "const o = { get p() { return undefinedVariable; } };\nfunction readsGetter() { return o.p; }\nreadsGetter();\n",
+         vec![(Some("*"), 1), (Some("readsGetter"), 2), (None, 3)]),
+        ("sort_comparator", "ok",
+         "function cmp(a: number, b: number) { return undefinedVariable + a - b; }\nfunction sorts() {\n  return [3, 1, 2].sort(cmp);\n}\nsorts();\n",
+         vec![(Some("cmp"), 1), (Some("sorts"), 3), (None, 5)]),
+    ];
+    for (shape, sig, src, want) in shapes {
+        cases += 1;
+        let obl = format!("call_shape_{}", shape);
+        match run(src) {
+            Err(JsError::RuntimeError { stack, .. }) => {
+                let got: Vec<String> = stack.iter().map(|f| format!("{}@{}:{}", f.function_name.as_deref().unwrap_or("<anonymous>"), f.file.as_deref().unwrap_or("<no file>"), f.line)).collect();
+                let name_ok = |g: &Option<String>, w: &Option<&str>| *w == Some("*") || g.as_deref() == *w;
+                let ok = stack.len() == want.len() && stack.iter().zip(want.iter()).all(|(g, w)| {
+                    name_ok(&g.function_name, &w.0) && g.line == w.1 && g.file.as_deref() == Some("/main.ts")
+                });
+                if !ok {
+                    // classify the deviation: the signature names exactly the known one, anything else gets its own
+                    let names_ok = stack.len() == want.len() && stack.iter().zip(want.iter()).all(|(g, w)| name_ok(&g.function_name, &w.0) && g.line == w.1);
+                    let files_missing_only = names_ok && stack.iter().all(|g| g.file.is_none() || g.file.as_deref() == Some("/main.ts"));
+                    let prefix_only = stack.len() < want.len() && stack.iter().zip(want.iter()).all(|(g, w)| name_ok(&g.function_name, &w.0) && g.line == w.1);
+                    let anon_first_only = stack.len() == want.len() && stack.first().map(|g| g.function_name.is_none()).unwrap_or(false)
+                        && stack.iter().zip(want.iter()).skip(1).all(|(g, w)| name_ok(&g.function_name, &w.0) && g.line == w.1)
+                        && stack.first().map(|g| g.line) == want.first().map(|w| w.1);
+                    let observed = if files_missing_only { "frame-without-file" } else if prefix_only { "trace-truncated-at-nested-vm" } else if anon_first_only { "innermost-frame-anonymous" } else { "other" };
+                    fail(&obl, format!("sig={} shape={} got {:?} want {:?} (expected on the unchanged tree: {})", observed, shape, got, want, sig));
+                }
+            }
+            other => fail(&obl, format!("sig=other shape={} got {:?}", shape, format!("{:?}", other).chars().take(140).collect::<String>())),
         }
     }
     for (li, lay) in LAYOUTS.iter().enumerate() {
